@@ -56,12 +56,12 @@ def decAdmL : List Nat → Nat → Prop
 
 def decChainSpec (o : Ops α) : List (List α × List α × List α) → List α → List α
   | [], x => x
-  | (t, he, ho) :: rest, x => decChainSpec o rest (decSpec o t he ho x)
+  | (t, he, ho) :: rest, x => decChainSpec o rest (hbfDecSpec o t he ho x)
 
 def decChainNext (o : Ops α) : List (List α × List α × List α) → List α → List (List α × List α × List α)
   | [], _ => []
   | (t, he, ho) :: rest, x =>
-    (t, (decNext t.length he ho x).1, (decNext t.length he ho x).2) :: decChainNext o rest (decSpec o t he ho x)
+    (t, (decNext t.length he ho x).1, (decNext t.length he ho x).2) :: decChainNext o rest (hbfDecSpec o t he ho x)
 
 theorem decChain_run_spec (o : Ops α) (c : List (HbfDec α)) (wf : ∀ s ∈ c, s.WF) (bs : List (List α))
     (adm : ∀ b ∈ bs, decAdmL (c.map HbfDec.blockMax) b.length) :
@@ -123,11 +123,11 @@ def intAdmL : List Nat → Nat → Prop
 
 def intChainSpec (o : Ops α) : List (List α × List α) → List α → List α
   | [], x => x
-  | (t, h) :: rest, x => intChainSpec o rest (intSpec o t h x)
+  | (t, h) :: rest, x => intChainSpec o rest (hbfIntSpec o t h x)
 
 def intChainNext (o : Ops α) : List (List α × List α) → List α → List (List α × List α)
   | [], _ => []
-  | (t, h) :: rest, x => (t, intNext t.length h x) :: intChainNext o rest (intSpec o t h x)
+  | (t, h) :: rest, x => (t, intNext t.length h x) :: intChainNext o rest (hbfIntSpec o t h x)
 
 theorem intChain_run_spec (o : Ops α) (c : List (HbfInt α)) (wf : ∀ s ∈ c, s.WF) (bs : List (List α))
     (adm : ∀ b ∈ bs, intAdmL (c.map HbfInt.blockMax) b.length) :
